@@ -40,7 +40,7 @@ M = [
     ('c11-iers-rotation-sign', 'C11', 'geodepy/constants.py', "                          round(-rx / 1000, 8), round(-ry / 1000, 8),", "                          round(rx / 1000, 8), round(-ry / 1000, 8),", BREAK),
     ('c13-height-not-zeroed', 'C13', 'geodepy/transform.py', "    if ell_ht is False:\n        ell_ht_out = 0\n    hemisphere, zone20, east20, north20, psf, gridconv = geo2grid(lat, lon)\n    return zone20, east20, north20, round(ell_ht_out, 4), vcv20",
      "    hemisphere, zone20, east20, north20, psf, gridconv = geo2grid(lat, lon)\n    return zone20, east20, north20, round(ell_ht_out, 4), vcv20", BREAK),
-    ('c13-reverse-vcv-unnegated', 'C13', 'geodepy/transform.py', "    x20, y20, z20, vcv94 = conform7(x94, y94, z94, -gda94_to_gda2020, vcv=vcv)", "    x20, y20, z20, _ = conform7(x94, y94, z94, -gda94_to_gda2020)\n    vcv94 = conform7(x94, y94, z94, gda94_to_gda2020, vcv=vcv)[3]", QUIET),
+    ('c13-reverse-vcv-unnegated', 'C13', 'geodepy/transform.py', "    x20, y20, z20, vcv94 = conform7(x94, y94, z94, -gda94_to_gda2020, vcv=vcv)", "    x20, y20, z20, _ = conform7(x94, y94, z94, -gda94_to_gda2020)\n    vcv94 = conform7(x94, y94, z94, gda94_to_gda2020, vcv=vcv)[3]", BREAK),   # covariance carried through the forward instead of the reverse set: differs at 4e-7 relative, reported with failing inputs
     # ---- C09
     ('c09-module-cache', 'C09', 'geodepy/convert.py', "def rect_radius(ellipsoid):\n", "_RR_CACHE = {}\n\n\ndef rect_radius(ellipsoid):\n    _RR_CACHE[id(ellipsoid)] = ellipsoid.inversef\n", BREAK),
     ('c09-vcv-in-place', 'C09', 'geodepy/statistics.py', "    rot_matrix = rotation_matrix(lat, lon)\n    vcv_local = rot_matrix.transpose() @ vcv_cart @ rot_matrix\n", "    rot_matrix = rotation_matrix(lat, lon)\n    vcv_local = rot_matrix.transpose() @ vcv_cart @ rot_matrix\n    if not column_vector:\n        vcv_cart[:] = vcv_cart\n", BREAK),
@@ -68,7 +68,7 @@ M = [
     ('c20-fields-crossed', 'C20', 'api/app.py', "    lon1 = request.args.get('lon1', type=float)\n    lat2 = request.args.get('lat2', type=float)\n    lon2", "    lon1 = request.args.get('lat2', type=float)\n    lat2 = request.args.get('lon1', type=float)\n    lon2", BREAK),
     ('c20-dms-on-distance', 'C20', 'api/app.py', "        'ell_dist': ell_dist,\n        'azimuth1to2': azimuth1to2,", "        'ell_dist': angle(ell_dist) if to_angle_type == 'dms' and from_angle_type == 'dd' else ell_dist,\n        'azimuth1to2': azimuth1to2,", BREAK),
     # ---- C08 / C12
-    ('c08-carry-rounding', 'C08', 'geodepy/angles.py', "    if round(second, 9) == 60:", "    if round(second, 3) == 60:", BREAK),
+    ('c08-carry-rounding', 'C08', 'geodepy/angles.py', "    if round(second, places) == 60:", "    if round(second, 3) == 60:", BREAK),
     ('c08-ddm-hp-per-60', 'C08', 'geodepy/angles.py', "    minute = minute + (second / 6)\n    return DDMAngle(degree, minute, positive=True) if hp >= 0", "    minute = minute + (second / 6) + (1e-7 if degree > 300 else 0)\n    return DDMAngle(degree, minute, positive=True) if hp >= 0", BREAK),
-    ('c12-rsub-order', 'C12', 'geodepy/angles.py', "            return dec2dms(other.dec() - self.dec())", "            return dec2dms(self.dec() - other.dec())", BREAK),
+    ('c12-rsub-order', 'C12', 'geodepy/angles.py', "            return dec2dms(other.dec() - self.dec())", "            return dec2dms(self.dec() - other.dec())", QUIET),   # equivalent: DMSAngle.__rsub__ is unreachable (every angle class answers __sub__ first)
 ]
